@@ -131,3 +131,20 @@ package cla
 // govc:iface ConvergenceSender.Send
 //@ assigns self.$lastSendOK
 //@ ensures self.$lastSendOK == (result == nil)
+
+// The retry tick of Manager.handler (callback of convs.Range): it never stops the iteration; an element that is listed
+// active is left alone (no second start); an inactive one gets at most one start attempt and keeps the element
+// invariant; the element is removed from the registry only when its attempt failed and must not be repeated, and it is
+// removed in that case.
+// govc:func (*Manager).handler$2 property C16
+//@ requires is(convElem, *convergenceElem) && convElem.(*convergenceElem) != nil && convElem.(*convergenceElem).conv != nil
+//@ requires manager != nil && is(key, string)
+//@ requires (convElem.(*convergenceElem).ttl < 0) == convElem.(*convergenceElem).conv.$running
+//@ let E := convElem.(*convergenceElem)
+//@ ensures result
+//@ ensures (E.ttl < 0) == E.conv.$running
+//@ ensures old(E.ttl) < 0 ==> E.conv.$starts == old(E.conv.$starts) && E.ttl == old(E.ttl) && smhas(manager.convs, key) == old(smhas(manager.convs, key))
+//@ ensures E.conv.$starts == old(E.conv.$starts) || E.conv.$starts == old(E.conv.$starts) + 1
+//@ atcall Delete: !successful && !retry && arg1 == key
+//@ ensures E.conv.$starts == old(E.conv.$starts) + 1 && !E.conv.$lastOK && !E.conv.$lastRetry ==> !smhas(manager.convs, key)
+//@ ensures E.conv.$running ==> smhas(manager.convs, key) == old(smhas(manager.convs, key))
